@@ -15,7 +15,7 @@ from .nodekit import (NodeKit, trace, val_id, is_ctrl, VAL, ERR, KIND, RETVAL, E
 
 MANIFEST_ENTRY = {
     'category': 'proof',
-    'text': 'with children abstract (each evaluation yields an arbitrary value, control value or language error) and for any number of branches, statements and iterations: `if` evaluates conditions in order up to the first TRUE, then exactly that branch, and returns its value; a block evaluates statements in order, stops at the first break/continue/return value and returns it unchanged; `while` alternates condition and body, consumes break/continue, passes return through and re-tests before every iteration; `for` over lists binds and visits the elements in index order and over sets in sorted order, with the same exit handling; a function call unwraps return and rejects stray break/continue; a comprehension visits the same enumeration as the for loop and appends exactly the values whose condition is TRUE; `for` over maps (default/keys/values/entries), objects and strings: the same binding and exit obligations for containers of up to 3 entries (symbolic-bounded); the remaining comprehension forms and every exit kind at every element position of every iterable kind by program enumeration on the real interpreter against a CPython reference',
+    'text': 'with children abstract (each evaluation yields an arbitrary value, control value or language error) and for any number of branches, statements and iterations: `if` evaluates conditions in order up to the first TRUE, then exactly that branch, and returns its value; a block evaluates statements in order, stops at the first break/continue/return value and returns it unchanged; `while` alternates condition and body, consumes break/continue, passes return through and re-tests before every iteration; `for` over lists binds and visits the elements in index order and over sets in sorted order, with the same exit handling; a function call unwraps return and rejects stray break/continue; a comprehension visits the same enumeration as the for loop and appends exactly the values whose condition is TRUE; `for` over maps (default/keys/values/entries), objects and strings: the same binding and exit obligations for containers of up to 3 entries (symbolic-bounded); the remaining comprehension forms and every exit kind at every element position of every iterable kind by program enumeration on the real interpreter against a CPython reference; a comprehension tests its condition first and evaluates the value expression only for elements whose condition is TRUE (per-iteration obligation); a `for` loop leaves its scope as it found it however it is left (loop variable gone, a hidden definition back)',
     'note': 'expression-level nodes pass control values into data (outside the property); map/object/string branches of `for`: symbolic-bounded (<= 3 entries); parallel/product comprehensions: bounded; composition to nested programs by structural induction over the node contracts (paper argument)',
     'technique': 'deductive verification: pyvc VCs from the real AST with ghost event traces and loop contracts + z3; bounded program enumeration for the remaining forms',
 }
